@@ -139,6 +139,9 @@ def run(pid, tier, seed, work, a, t0):
         fails = []
         undecided = []
         reach_ok = reach_bad = 0
+        finfo = builts[r['unit']]['L'].fn_info.get(r['enforce'], {})
+        dead_ok = (finfo.get('spec') or {}).get('dead_ok', []) + list(p.get('dead_ok', []))
+        dead_seen = []
         for o in r['obligations']:
             c = pipeline.classify(o)
             cnt[c] += 1
@@ -146,6 +149,8 @@ def run(pid, tier, seed, work, a, t0):
                 if (o['function'] or '').startswith(r['enforce']) or (o['desc'] or '').startswith('REACH:' + r['enforce']):
                     if o['status'] == 'FAILURE':
                         reach_ok += 1
+                    elif o['status'] == 'SUCCESS' and src_line(o['file'], o['line']) in dead_ok:
+                        dead_seen.append('%s:%s: %s' % (o['file'], o['line'], src_line(o['file'], o['line'])))
                     else:
                         reach_bad += 1
                         undecided.append(o)
@@ -168,6 +173,10 @@ def run(pid, tier, seed, work, a, t0):
         if unw:
             errors.append('%s/%s: unwinding assertion failed (bound too small): %s' % (r['unit'], r['proof'], unw[0]['id']))
             continue
+        if reach_bad and not fails:
+            o = [x for x in undecided if pipeline.classify(x) == 'R'][0]
+            errors.append('%s/%s: statement unreachable under the contract (vacuity guard): %s at %s:%s [%s]' % (r['unit'], r['proof'], o['desc'], o['file'], o['line'], src_line(o['file'], o['line'])))
+            continue
         if undecided and not fails:
             o = undecided[0]
             errors.append('%s/%s: %d obligations undecided, e.g. %s %s [%s]' % (r['unit'], r['proof'], len(undecided), o['id'], o['status'], o['desc']))
@@ -189,7 +198,7 @@ def run(pid, tier, seed, work, a, t0):
             n_dis += nobl - nfail - nund
         per_proof.append({'unit': r['unit'], 'proof': r['proof'], 'function': r['enforce'], 'mode': r['mode'] + (' (complete: %s)' % p['complete'] if p.get('complete') else ''),
                           'obligations': nobl, 'failed': nfail, 'reach_markers_fired': reach_ok, 'seconds': round(r['seconds'], 1),
-                          'backend': 'cbmc 6.11 SAT/cadical', 'replaced_by_contract': list(p.get('replace', []))})
+                          'backend': 'cbmc 6.11 SAT/cadical', 'replaced_by_contract': list(p.get('replace', [])), 'dead_code_accepted': dead_seen})
         if len(samples) < 6:
             for o in r['obligations'][:400]:
                 if pipeline.classify(o) == 'P' and ('postcondition' in (o['id'] or '') or 'precondition' in (o['id'] or '')):
